@@ -126,9 +126,9 @@ def drive_walks(tier, seed):
 def split_runs(lines):
     runs, cur = [], []
     for l in lines:
-        if l.startswith('{"buf"') or '"op":"reset"' in l[:200] or '"op":"reset"' in l:
+        if 'reset"' in l:
             j = json.loads(l)
-            if j.get("op") == "reset":
+            if j.get("op") in ("reset", "areset", "greset"):
                 if cur:
                     runs.append(cur)
                 cur = [l]
@@ -170,7 +170,10 @@ def validate_trace(path, module="ThriftTrace", max_rejects=8, timeout=1800):
         for ri, r in enumerate(runs):
             if n + len(r) >= d:
                 ev = json.loads(r[d - n - 1])
-                rejections.append({"line_in_run": d - n, "event": ev, "run_head": json.loads(r[0]) if len(r[0]) < 5000 else {"op": "reset", "note": "large"},
+                head = json.loads(r[0])
+                if len(r[0]) > 5000:
+                    head = {k: v for k, v in head.items() if k != "input"}
+                rejections.append({"line_in_run": d - n, "event": ev, "run_head": head,
                                    "run_lines": r[: d - n + 2]})
                 del runs[ri]
                 break
@@ -226,3 +229,17 @@ GUARD_CHECKS = {"guard", "seq-guard"}
 
 def cls_of(m):
     return {"check": m["check"], "proto": m["proto"], "kind": m.get("vkind", "-")}
+
+
+def cached_model_check(name, module, cfg, tier, workers=8, timeout=3600, xmx="8g"):
+    """An exhaustive TLC run whose result depends on the specification only."""
+    key = c.spec_hash(module, name, cfg, tier)
+    p = os.path.join(c.OUT, "cache", f"mc-{name}-{tier}-{key}.json")
+    os.makedirs(os.path.dirname(p), exist_ok=True)
+    if os.path.exists(p):
+        return json.load(open(p))
+    res = c.tlc(module, cfg=cfg, env={"VERIF_TIER": tier}, workers=workers, timeout=timeout, xmx=xmx, tag=name)
+    c.tlc_must_pass(res, name)
+    st = {"generated": res["generated"], "distinct": res["distinct"], "dt": round(res["dt"], 1), "cfg": cfg, "module": module}
+    json.dump(st, open(p, "w"))
+    return st
